@@ -269,9 +269,9 @@ fn concrete_archive(bytes: &[u8]) -> BinArchive {
     a
 }
 
-// @tier quick
-// @timeout 1200
-// @mem 12
+// @tier thorough
+// @timeout 3600
+// @mem 40
 // @bounds text-archive walk over concrete archives: empty; "hi\0\0" with and without key label; unterminated "abcd"; UTF-16 "A\0\0\0"; odd-length data (5 bytes) (solver-chosen arm); both formats
 // @claims TextArchive::from_archive terminates with Ok or Err (unterminated or unaligned text is an error), never a panic; an accepted archive re-serializes without panic
 // @assume encoding_rs encode/decode replaced by the 7-bit model (stubs.rs); lossless-ness of the real codec is not claimed here
@@ -326,9 +326,9 @@ fn text_walk(sel: u8) {
     std::mem::forget(a);
 }
 
-// @tier quick
-// @timeout 1200
-// @mem 12
+// @tier thorough
+// @timeout 3600
+// @mem 40
 // @bounds text-archive walk over concrete archives: UTF-16 "A\\0\\0\\0" with key label; 5 bytes of Shift-JIS data (unaligned tail); 9 bytes of UTF-16 data ending inside a code unit (solver-chosen arm)
 // @claims as c05_text_archive_walk: data that ends inside a message or a code unit is an error, never a panic
 // @assume encoding_rs encode/decode replaced by the 7-bit model (stubs.rs)
@@ -345,9 +345,9 @@ fn c05_text_archive_walk_b() {
     kani::cover!(sel == 6);
 }
 
-// @tier quick
-// @timeout 1200
-// @mem 12
+// @tier thorough
+// @timeout 3600
+// @mem 40
 // @bounds asset-binary and animation-set readers over the empty archive; animation-set reader over small archives with and without the table label (solver-chosen arm)
 // @claims AssetBinary::from_archive and ASetFile::from_archive terminate with Ok or Err on malformed small archives (missing flags word, truncated records, missing label, table running past the end), never a panic
 #[kani::proof]
@@ -375,9 +375,9 @@ fn c05_asset_and_aset_readers() {
     kani::cover!(sel == 1);
 }
 
-// @tier quick
-// @timeout 1200
-// @mem 16
+// @tier thorough
+// @timeout 3600
+// @mem 40
 // @bounds asset-binary reader over concrete archives: 4 zero bytes; flags + a short record announcing more strings than the data holds; flags + an extended-form record cut short (solver-chosen arm)
 // @claims AssetBinary::from_archive ends the spec list at the first malformed or truncated record and returns Ok, never a panic
 #[kani::proof]
@@ -407,6 +407,48 @@ fn c05_asset_binary_reader() {
         std::mem::forget(a);
     }
     kani::cover!(sel == 2);
+}
+
+// @tier quick
+// @timeout 900
+// @mem 12
+// @bounds the NUL-terminated string readers over concrete data: UTF-16 data ending inside a code unit (archive reader and byte cursor), unterminated Shift-JIS data, a terminated UTF-16 string (solver-chosen arm)
+// @claims the string readers used by every archive-family parser return UnterminatedString (never panic) when the data ends before the terminator, also in the middle of a UTF-16 code unit; a terminated string is read and the archive reader re-aligns to 4 bytes
+// @assume encoding_rs decode replaced by the 7-bit model (stubs.rs)
+#[kani::proof]
+#[kani::unwind(14)]
+#[kani::stub(encoding_rs::Encoding::decode, crate::stubs::decode_ascii_model)]
+fn c05_string_readers() {
+    use mila::{BinArchiveReader, EncodedStringReader};
+    let sel: u8 = kani::any();
+    kani::assume(sel < 4);
+    if sel == 0 {
+        let a = concrete_archive(&[0, 0, 0, 0, b'A', 0, b'B', 0, b'C']);
+        let mut r = BinArchiveReader::new(&a, 4);
+        assert!(keep(r.read_utf_16_string()).is_none(), "C05: UTF-16 data that ends inside a code unit must be an error, not a panic");
+        std::mem::forget(a);
+    }
+    if sel == 1 {
+        let data: [u8; 5] = [b'A', 0, b'B', 0, b'C'];
+        let mut c = std::io::Cursor::new(&data[..]);
+        assert!(keep(c.read_utf_16_string()).is_none(), "C05: UTF-16 data that ends inside a code unit must be an error, not a panic");
+    }
+    if sel == 2 {
+        let a = concrete_archive(&[b'a', b'b', b'c', b'd']);
+        let mut r = BinArchiveReader::new(&a, 0);
+        assert!(keep(r.read_shift_jis_string()).is_none(), "C05: unterminated Shift-JIS text must be an error");
+        std::mem::forget(a);
+    }
+    if sel == 3 {
+        let a = concrete_archive(&[b'A', 0, 0, 0, 9, 9, 9, 9]);
+        let mut r = BinArchiveReader::new(&a, 0);
+        let s = keep(r.read_utf_16_string());
+        assert!(matches!(&s, Some(x) if x == "A"), "C05: a terminated UTF-16 string is read");
+        assert!(r.tell() == 4, "C05: the archive reader re-aligns to the next 4-byte boundary after a string");
+        std::mem::forget(s);
+        std::mem::forget(a);
+    }
+    kani::cover!(sel == 3);
 }
 
 // @tier quick
